@@ -1,5 +1,6 @@
 """semantic helpers on top of A3/A5: CFG-based guards and alias expansion (per function, cached)"""
 import ast, copy
+from sa.util import clone as _clone
 from sa.cfg import CFG, control_dependence, guards_of
 from sa.reach import Reaching
 _cache = {}
@@ -52,10 +53,34 @@ class FuncInfo:
                 if len(defs) == 1:
                     dn = cfg.nodes[defs[0]]; a = dn.ast
                     if dn.kind == "stmt" and isinstance(a, ast.Assign) and len(a.targets) == 1 and isinstance(a.targets[0], ast.Name) and not any(isinstance(x, ast.Name) and x.id == n.id for x in ast.walk(a.value)):
-                        return s.expand(copy.deepcopy(a.value), at=a, depth=depth + 1)
+                        return s.expand(_clone(a.value), at=a, depth=depth + 1)
                 return n
-        return T().visit(copy.deepcopy(expr))
+        return T().visit(_clone(expr))
     def text(s, expr, at=None): return ast.unparse(s.expand(expr, at))
+    def atoms_at(s, ast_node, expand=True):
+        """conditions that necessarily hold where ast_node executes, as a list of (canonical atom text, polarity):
+        control-dependence guards (incl. early exits, short-circuit operands, comprehension filters) split by De Morgan
+        (a true conjunction / a false disjunction yield their parts), negations pushed inward, `!=`/`is not`/`not in`
+        canonicalised to the negated positive atom, single-definition locals expanded.  A true disjunction / false
+        conjunction stays one compound atom."""
+        out = []
+        def add(t, pol):
+            if isinstance(t, ast.UnaryOp) and isinstance(t.op, ast.Not): return add(t.operand, not pol)
+            if isinstance(t, ast.BoolOp) and ((isinstance(t.op, ast.And) and pol) or (isinstance(t.op, ast.Or) and not pol)):
+                for v in t.values: add(v, pol)
+                return
+            if isinstance(t, ast.Compare) and len(t.ops) == 1 and isinstance(t.ops[0], (ast.NotEq, ast.IsNot, ast.NotIn)):
+                op = {ast.NotEq: ast.Eq, ast.IsNot: ast.Is, ast.NotIn: ast.In}[type(t.ops[0])]()
+                t = ast.Compare(left=t.left, ops=[op], comparators=t.comparators); pol = not pol
+            out.append((" ".join(ast.unparse(t).split()), pol))
+        for g, pol in s.guards(ast_node):
+            ge = s.expand(g, at=g) if expand else g
+            add(ge, pol)
+        return out
+    def holds(s, ast_node, text, pol=True):
+        """is the atom (whitespace-insensitive text) known to have this polarity at ast_node?"""
+        key = text.replace(" ", "")
+        return any(a.replace(" ", "") == key and p == pol for a, p in s.atoms_at(ast_node))
 def info(fn):
     if id(fn) not in _cache: _cache[id(fn)] = FuncInfo(fn)
     return _cache[id(fn)]
